@@ -285,8 +285,33 @@ def check_lookup_fill(ctx, F):
 
 # ---------------------------------------------------------------- clause 5 (Tier 2)
 
-def role_float(t):
-    """probabilities slice / pmf field -> ('PROBS',); normalization arg -> kept as is (same position)."""
+def _is_sum_of_table(F, v):
+    """v is `table.iter().copied().sum()` written inline, or a closure whose body is exactly that."""
+    def inline(t):
+        return (t[0] == 'call' and t[1].endswith('Iterator::sum') and t[2] and t[2][0][0] == 'call' and t[2][0][1].endswith('Iterator::copied')
+                and t[2][0][2][0][0] == 'call' and t[2][0][2][0][1].endswith('::iter'))
+    if not isinstance(v, tuple) or not v:
+        return False
+    if inline(v):
+        return True
+    if v[0] == 'agg' and isinstance(v[1], tuple) and v[1][0] == 'closure' and F is not None:
+        cb = F.by_def.get(v[1][1])
+        if cb is not None:
+            _, pp = rules.evaluate(cb)
+            rs = [r for r in pp or [] if r.end == 'return']
+            return len(rs) == 1 and inline(rs[0].ret)
+    return False
+
+
+def role_float(t, F=None):
+    """probabilities slice / pmf field -> ('PROBS',); normalization arg -> kept as is (same position);
+    `normalization.unwrap_or(sum)` and `normalization.unwrap_or_else(|| sum)` -> the same NORM atom."""
+    def pre(n):
+        if n and n[0] == 'call' and isinstance(n[1], str) and n[1].endswith(('Option::<T>::unwrap_or', 'Option::<T>::unwrap_or_else')) and len(n[2]) == 2 and _is_sum_of_table(F, n[2][1]):
+            return ('NORM', n[2][0])
+        return None
+    t = effects.rebuild(effects.strip_uid(t), pre)
+
     def f(n):
         if n and n[0] == 'arg' and n[1] == 1:
             return ('PROBS',)
@@ -308,16 +333,16 @@ def ctor_shape(F, b):
     for r in paths or []:
         if r.end == 'return' and rules.ret_shape(r.ret)[0] == 'Err':
             for t, v, _ in r.preds:
-                guards.add(repr((role_float(t), v)))
+                guards.add(repr((role_float(t, F), v)))
         for e in r.events:
             if e['kind'] == 'call' and e['callee'] == 'core::ops::Div::div':
-                scale.add(repr(role_float(e['result'])))
+                scale.add(repr(role_float(e['result'], F)))
             if e['kind'] == 'call' and e['callee'] == 'core::ops::Mul::mul' and sym.contains(e['result'], lambda y: isinstance(y, tuple) and y and y[0] == 'call' and y[1].endswith('recip')):
-                scale.add(repr(role_float(e['result'])))
+                scale.add(repr(role_float(e['result'], F)))
         for x in ([r.ret] if r.ret is not None else []):
             for y in sym.subterms(x):
                 if isinstance(y, tuple) and y and y[0] == 'bin' and y[1] in ('Div',) and sym.contains(y, lambda z: isinstance(z, tuple) and z and z[0] == 'call' and z[1].endswith('wrapping_pow2')):
-                    scale.add(repr(role_float(y)))
+                    scale.add(repr(role_float(y, F)))
     return guards, scale
 
 
